@@ -1784,6 +1784,10 @@ Proof. unfold under. rewrite !length_app_s. cbn. lia. Qed.
 Section Sequential.
   Variable ty e : string.
   Variable F : folder.
+  (* the measure the files are sorted by: any one that grows when a path is put under the type folder
+     (number of bytes, number of characters, ...) *)
+  Variable len : string -> nat.
+  Hypothesis len_under : forall q, (len q < len (under ty q))%nat.
 
   Definition mstep (M : folder) (p : string) : folder := move_key p (under ty p) M.
   Definition move_in_order (order : list string) (M : folder) : folder := fold_left mstep order M.
@@ -1799,22 +1803,22 @@ Section Sequential.
     end.
 
   Definition longest_first (L : list string) : Prop :=
-    StronglySorted (fun p q => (String.length q <= String.length p)%nat) L.
+    StronglySorted (fun p q => (len q <= len p)%nat) L.
 
   Lemma move_in_order_spec L : forall done M,
     (forall k, lookup k M = spec done k) ->
     NoDup L -> (forall p, In p L -> In p (keys F) /\ ~ In p done) ->
-    longest_first L -> (forall p q, In p L -> In q done -> (String.length p <= String.length q)%nat) ->
+    longest_first L -> (forall p q, In p L -> In q done -> (len p <= len q)%nat) ->
     forall k, lookup k (move_in_order L M) = spec (rev L ++ done) k.
   Proof.
     induction L as [|p L IH]; intros done M Inv ND Sub Srt Len k; [apply Inv|].
     cbn [move_in_order fold_left rev]. rewrite <- app_assoc. cbn [app].
     inversion ND as [|? ? Np NDL]; subst. inversion Srt as [|? ? SrtL Hd]; subst.
     destruct (Sub p (or_introl eq_refl)) as [PK PD].
-    assert (NF : forall done' q, (forall x, In x done' -> (String.length p <= String.length x)%nat) ->
+    assert (NF : forall done' q, (forall x, In x done' -> (len p <= len x)%nat) ->
                                  find (fun q => eqb p (under ty q)) done' = Some q -> False).
     { intros done' q Hl Hf. apply find_some in Hf as [Hq He]. apply eqb_true in He.
-      pose proof (Hl q Hq). pose proof (length_under ty q). rewrite <- He in H0. lia. }
+      pose proof (Hl q Hq). pose proof (len_under q). rewrite <- He in H0. lia. }
     assert (LP : lookup p M = lookup p F).
     { rewrite Inv. unfold spec. destruct (find (fun q => eqb p (under ty q)) done) eqn:Fd.
       - exfalso. apply (NF done s); [intros x Hx; apply (Len p x); [left; reflexivity | exact Hx] | exact Fd].
@@ -1823,7 +1827,7 @@ Section Sequential.
     2:{ exfalso. apply lookup_In_keys in PK. apply PK. exact LF. }
     apply (IH (p :: done) (mstep M p)).
     - intros x. unfold mstep. rewrite lookup_move_key.
-      2:{ intros E. pose proof (length_under ty p). rewrite <- E in H. lia. }
+      2:{ intros E. pose proof (len_under p). rewrite <- E in H. lia. }
       rewrite LP. unfold spec. cbn [find memb].
       destruct (eqb_spec x (under ty p)) as [->|N1]; [exact (eq_sym LF) |].
       destruct (eqb_spec x p) as [->|N2].
@@ -1869,3 +1873,94 @@ Section Sequential.
     - intros p q _ [].
   Qed.
 End Sequential.
+
+(* the two measures of interest *)
+Lemma bytes_grow ty q : (String.length q < String.length (under ty q))%nat.
+Proof. apply length_under. Qed.
+
+(* Python's len(str): the number of characters = bytes that are not UTF-8 continuation bytes *)
+Definition is_cont (c : ascii) : bool := let n := code c in ((128 <=? n) && (n <? 192))%N.
+Fixpoint nchars (s : string) : nat :=
+  match s with EmptyString => O | String c s' => if is_cont c then nchars s' else S (nchars s') end.
+Lemma nchars_app a b : nchars (a +++ b) = (nchars a + nchars b)%nat.
+Proof. induction a as [|c a IH]; cbn; [reflexivity|]. destruct (is_cont c); rewrite IH; reflexivity. Qed.
+Lemma chars_grow ty q : (nchars q < nchars (under ty q))%nat.
+Proof. unfold under. rewrite !nchars_app. cbn. lia. Qed.
+
+(* ================================================================== 16. record files in the copy route *)
+Lemma copy_rd_step a s t r :
+  upgrade_copy a s t = CDone r -> rd_step_cp false s (t_rd t) = inl (c_rd r, c_src_rd r).
+Proof.
+  unfold upgrade_copy, upgrade_copy_gen. intros H.
+  repeat match type of H with
+         | context [match ?x with _ => _ end] => destruct x eqn:?; try discriminate
+         end.
+  injection H as <-. reflexivity.
+Qed.
+
+Definition files_or_none (mk : folder -> rdout) (R : folder) : rdout := match R with [] => RNone | _ => mk R end.
+
+Theorem record_files_per_strategy a s t r :
+  upgrade_copy a s t = CDone r ->
+  match t_rd t with
+  | None => c_rd r = RNone /\ c_src_rd r = None
+  | Some R =>
+    c_src_rd r = match s with Move => Some [] | _ => Some R end /\
+    c_rd r = match s with
+             | Skip => RNone
+             | RootLink => RRootLink
+             | Copy | Move => files_or_none RFiles R
+             | LinkAbs | LinkRel => files_or_none RLinks R
+             end
+  end.
+Proof.
+  intros H. apply copy_rd_step in H. unfold rd_step_cp in H.
+  destruct (t_rd t) as [R|]; destruct s; injection H as <- <-; auto.
+Qed.
+
+(* ================================================================== 15. image names and extensions *)
+Lemma removelast_cons_ne {A} (x : A) l : l <> [] -> removelast (x :: l) = x :: removelast l.
+Proof. destruct l; [contradiction | reflexivity]. Qed.
+
+Lemma split_char_app_nosep c i e :
+  has_char c e = false ->
+  split_char c (i +++ e) = removelast (split_char c i) ++ [last (split_char c i) EmptyString +++ e].
+Proof.
+  intros H. induction i as [|x i IH]; cbn [append split_char].
+  - rewrite (split_char_no _ _ H). reflexivity.
+  - destruct (Ascii.eqb x c).
+    + rewrite IH, removelast_cons_ne by apply split_char_nonempty.
+      destruct (split_char c i) eqn:E; [exfalso; eapply split_char_nonempty; eauto|]. reflexivity.
+    + rewrite IH. destruct (split_char c i) as [|h t] eqn:E; [exfalso; eapply split_char_nonempty; eauto|].
+      destruct t as [|h2 t]; reflexivity.
+Qed.
+
+Lemma basename_app i e : has_char "/" e = false -> basename (i +++ e) = basename i +++ e.
+Proof.
+  intros H. unfold basename. rewrite (split_char_app_nosep _ _ _ H). rewrite last_app_nonempty by discriminate. reflexivity.
+Qed.
+
+(* the base name of an image has at least one character other than a dot *)
+Definition good_base (i : string) : bool := existsb nonempty_str (split_char "." (basename i)).
+
+Lemma existsb_rev {A} (f : A -> bool) l : existsb f (rev l) = existsb f l.
+Proof.
+  induction l as [|x l IH]; [reflexivity|]. cbn. rewrite existsb_app, IH. cbn. rewrite orb_false_r. apply orb_comm.
+Qed.
+
+Lemma has_ext_image x i :
+  has_char "/" x = false -> has_char "." x = false -> lower x = x -> good_base i = true ->
+  has_ext (String "." x) (i +++ String "." x) = true.
+Proof.
+  intros S D Lw G. unfold has_ext. rewrite basename_app by (cbn; exact S).
+  unfold ext_of. rewrite split_char_app, (split_char_no _ _ D), rev_app_distr. cbn [rev app].
+  rewrite existsb_rev. unfold good_base in G. rewrite G. cbn [append lower]. rewrite Lw.
+  assert (lower_ascii "." = "."%char) as -> by reflexivity. apply eqb_refl.
+Qed.
+
+Theorem images_ok_good k imgs : forallb good_base imgs = true -> images_ok (fext k) imgs.
+Proof.
+  intros G i Hi. rewrite forallb_forall in G. specialize (G i Hi).
+  destruct k; [change (fext KP) with kp_ext | change (fext DS) with ds_ext | change (fext GF) with gf_ext];
+    apply (has_ext_image _ i); try (vm_compute; reflexivity); exact G.
+Qed.
